@@ -120,8 +120,8 @@ func c12BoundedPasses(c *Ctx) {
 	n := 0
 	for _, rc := range directExtra(gr) {
 		n++
-		if !hasFact(gr.CaseFacts(rc), func(f Fact) bool {
-			return cmpMatch(f, token.LEQ, isField(passesF), func(v ssa.Value) bool { k, ok := constUint64(v); return ok && k <= maxP })
+		if !gr.holdsInScenarios(rc.At, gr.CaseFacts(rc), func(facts []Fact, _ map[Edge]bool) bool {
+			return hasFact(facts, func(f Fact) bool { return leConstFact(f, isField(passesF), maxP) })
 		}) {
 			bad = "relocateNamedObjects can ask for another pass although resolvePasses > maxResolvePasses"
 		}
@@ -139,12 +139,18 @@ func c12BoundedPasses(c *Ctx) {
 		n++
 		var cut []Edge
 		for _, f := range gm.AllEdgeFacts() {
-			if cmpMatch(f, token.LEQ, isField(passesF), func(v ssa.Value) bool { k, ok := constUint64(v); return ok && k == 1 }) ||
-				cmpMatch(f, token.NEQ, isField(movedF), isZeroConst) {
+			if leConstFact(f, isField(passesF), 1) ||
+				cmpMatch(f, token.NEQ, isField(movedF), isZeroConst) || cmpMatch(f, token.GTR, isField(movedF), isZeroConst) {
 				cut = append(cut, f.Edge)
 			}
 		}
-		if !gm.UnreachableWithout(rn.At, cut) {
+		if !gm.holdsInScenarios(rn.At, nil, func(_ []Fact, sc map[Edge]bool) bool {
+			es := append([]Edge(nil), cut...)
+			for e := range sc {
+				es = append(es, e)
+			}
+			return gm.UnreachableWithout(rn.At, es)
+		}) {
 			bad = "mergeScopeDirectives can ask for another pass although this is not the first pass and the previous relocate pass moved nothing: the loop never ends on an unresolvable Scope"
 		}
 	}
@@ -369,4 +375,11 @@ func c12MoveAcyclic(c *Ctx) {
 	if nmoves == 0 {
 		c.fail("C12.R5", "move-acyclic aml", "no move of an attached object under a looked-up parent found in relocateNamedObjects (rule shape lost)")
 	}
+}
+
+// leConstFact: the fact states v <= K for a v matched by pa: v <= k (k <= K) or
+// v < k (k <= K+1), in either operand order.
+func leConstFact(f Fact, pa func(ssa.Value) bool, K uint64) bool {
+	return cmpMatch(f, token.LEQ, pa, func(v ssa.Value) bool { k, ok := constUint64(v); return ok && k <= K }) ||
+		cmpMatch(f, token.LSS, pa, func(v ssa.Value) bool { k, ok := constUint64(v); return ok && k <= K+1 })
 }
